@@ -95,6 +95,8 @@ func Unmarshal(data []byte) (any, error) {
 
 type internalStruct struct {
 	PointerNum uint32 `json:",omitempty"`
+	// number of non-nil pointers above a nil pointer (only with JSONValue null)
+	NonNilPointerNum uint32 `json:",omitempty"`
 
 	// based type
 	Type      string          `json:",omitempty"`
@@ -132,8 +134,11 @@ func internalMarshal(v any) (*internalStruct, error) {
 	for rt.Kind() == reflect.Ptr {
 		ret.PointerNum++
 		if rv.IsNil() {
-			for rt.Kind() == reflect.Ptr {
-				rt = rt.Elem()
+			// PointerNum-1 non-nil pointers lead to this nil one; keep counting so that
+			// PointerNum is the full pointer depth of the static type
+			ret.NonNilPointerNum = ret.PointerNum - 1
+			for rt = rt.Elem(); rt.Kind() == reflect.Ptr; rt = rt.Elem() {
+				ret.PointerNum++
 			}
 			key, ok := rm[rt]
 			if !ok {
@@ -275,7 +280,13 @@ func internalUnmarshal(v *internalStruct) (any, error) {
 			return nil, fmt.Errorf("unknown type key: %v", v.Type)
 		}
 		pResult := reflect.New(resolvePointerNum(v.PointerNum, t))
-		err := sonic.Unmarshal(v.JSONValue, pResult.Interface())
+		target := pResult
+		for i := uint32(0); i < v.NonNilPointerNum && target.Type().Elem().Kind() == reflect.Ptr; i++ {
+			// re-create the non-nil pointers above a nil pointer
+			target.Elem().Set(reflect.New(target.Type().Elem().Elem()))
+			target = target.Elem()
+		}
+		err := sonic.Unmarshal(v.JSONValue, target.Interface())
 		if err != nil {
 			return nil, fmt.Errorf("unmarshal type[%s] fail: %v, data: %s", v.Type, err, string(v.JSONValue))
 		}
